@@ -113,7 +113,11 @@ def edits(rng: random.Random, m: gen.GModel, n: int):
                     j = rng.randrange(len(b[2]))
                     nme, val = b[2][j].split("=", 1)
                     if "ScalarParam" not in val:
-                        b[2][j] = f'{nme}=ScalarParam({val}, unit="{rng.choice(["mV", "ms", "mM", "1"])}", description="{rng.choice(["a value", "gate", "x y z", "100 percent"])}")'
+                        # annotation texts are free text: apostrophes, backslashes followed by any character, brackets, '#', unicode
+                        descs = ["a value", "gate", "x y z", "100 percent", "Faraday's constant", "scaled by \\xi", "rate \\upsilon", "C:\\temp\\file",
+                                 "\\Nu mber", "tab\\there", "a \\ b", "50 \\% open", "(see [3])", "# not a comment", "µ-opioid", "1/0", "lambda: 0"]
+                        units_ = ["mV", "ms", "mM", "1", "uA/uF", "per_ms", "\\Omega", "mS/cm2", "%"]
+                        b[2][j] = f'{nme}=ScalarParam({val}, unit="{rng.choice(units_)}", description="{rng.choice(descs)}")'
                     break
             out.append(("unit / description annotation on a declaration", "annotation", render(bl)))
     return base, out
